@@ -9,7 +9,7 @@ Open Scope string_scope.
 (* ---- the property, flat ---- *)
 Definition C08_project_full : Prop :=
   forall (o: opts) (fs: list fplan) (vs: list fval),
-    kw_ok o = true -> vals_sem fs vs = true ->
+    kw_ok o = true -> vals_ok fs vs = true ->
     to_dict_model o fs vs = Some (project (eff_of o) fs vs (plain_out fs vs)).
 
 Theorem C08_project_partial :
@@ -21,18 +21,15 @@ Print Assumptions C08_project_partial.
 
 (* D14 (known finding C08/call-dialect-vs-flag-defaults) *)
 Theorem C08_project_refuted : ~ C08_project_full.
-Proof. exact project_full_sem_refuted. Qed.
+Proof. exact project_full_refuted. Qed.
 Print Assumptions C08_project_refuted.
 
-(* known finding C08/omit-none-wide-union: vals_ok (field nullable as is_field_nullable sees it, K17)
-   is narrower than vals_sem (the type admits None): Union[int, str, None] holding None keeps its key
-   under omit_none, while Annotated[Final[Optional[...]]] is handled *)
-Theorem C08_wide_union_refuted :
-  kw_ok wide_opts = true /\ vals_sem wide_fields wide_vals = true /\ flag_defaults_ok wide_opts = true /\
-  to_dict_model wide_opts wide_fields wide_vals = Some [("u", PNone)] /\
-  project (eff_of wide_opts) wide_fields wide_vals (plain_out wide_fields wide_vals) = [].
-Proof. exact wide_union_refuted. Qed.
-Print Assumptions C08_wide_union_refuted.
+(* a union of three or more members containing None (repaired in /repo 906a805, formerly known finding
+   C08/omit-none-wide-union): nullable (K17), inside the domain of C08_project_partial, None dropped *)
+Example C08_wide_union :
+  kw_ok wide_opts = true /\ vals_ok wide_fields wide_vals = true /\ flag_defaults_ok wide_opts = true /\
+  to_dict_model wide_opts wide_fields wide_vals = Some [("w", PStr "2020-01-01")].
+Proof. exact wide_union_example. Qed.
 
 (* NaN default under omit_default (repaired in /repo 80d27b9, formerly known finding
    C08/omit-default-nan-isnan): None and non-numbers are kept, only a float NaN is dropped; this
